@@ -52,6 +52,8 @@ func runC07(c *Ctx) {
 		return
 	}
 
+	checkSlotArithmetic(c)
+
 	report := func(rule, key string, fn *ssa.Function, evals int, atoms []string, dis, err string) {
 		if err != "" {
 			c.Undecided(rule, key, err)
